@@ -11,6 +11,7 @@ pub mod vspec {
 #[allow(unused_imports)] use crate::*;
 pub use crate::vfield::*;
 pub use crate::vgroup::*;
+pub use crate::vorder::*;
 pub use crate::vstdx::*;
 verus! {
 //@module_serves ALL
@@ -91,6 +92,7 @@ pub proof fn use_id_order<C: Ciphersuite>()
     ensures
         vstd::laws_cmp::obeys_cmp::<Identifier<C>>(),
         vstd::std_specs::btree::key_obeys_cmp_spec::<Identifier<C>>(),
+        lt_laws::<Identifier<C>>(),
 {
     ax_identifier_ord::<C>();
 }
@@ -98,7 +100,7 @@ pub proof fn use_id_order<C: Ciphersuite>()
 // T7 (assumed): `Ord for Identifier` is a total order consistent with `==`
 pub uninterp spec fn spec_id_cmp<C: Ciphersuite>(a: Identifier<C>, b: Identifier<C>) -> core::cmp::Ordering;
 pub axiom fn ax_identifier_ord<C: Ciphersuite>()
-    ensures vstd::laws_cmp::obeys_cmp::<Identifier<C>>();
+    ensures vstd::laws_cmp::obeys_cmp::<Identifier<C>>(), lt_laws::<Identifier<C>>();
 
 
 // ---------------------------------------------------------------------------------------------------
